@@ -317,7 +317,7 @@ class ExprBuilder:
             return +a[0]
         if op == "not":
             return ~a[0]
-        if op in ("abs", "floor", "ceil", "is_null", "is_not_null"):
+        if op in ("abs", "floor", "ceil", "is_null", "is_not_null", "is_nan", "is_not_nan", "is_inf", "is_not_inf"):
             return getattr(a[0], op)()
         if op == "str_starts_with":
             return a[0].str.starts_with(a[1])
@@ -366,7 +366,20 @@ class ExprBuilder:
 # moves
 
 
-def apply_move(m: dict, heap: list, colmap: dict, pool: dict | None = None):
+class ChainTap:
+    """Stands in for the table on the left of `>>`: hands the verb call (the table-less Pipeable) to `sink` and pipes as usual.
+    opts['chain']: the replayer composes these calls into verb chains WITHOUT a table (`chain >> verb(...)`), keeps one chain
+    object per behaviour prefix, extends it once per child prefix and applies it to the source table."""
+
+    def __init__(self, table, sink):
+        self.table, self.sink = table, sink
+
+    def __rshift__(self, rhs):
+        self.sink.append(rhs)
+        return self.table >> rhs
+
+
+def apply_move(m: dict, heap: list, colmap: dict, pool: dict | None = None, tap: list | None = None):
     """Apply one move of the specification to the real tables in `heap` (0-based list whose
     index k holds the table for the specification's heap index k+1).  Returns the new table
     (or whatever the call returns).  Exceptions propagate to the caller."""
@@ -375,6 +388,8 @@ def apply_move(m: dict, heap: list, colmap: dict, pool: dict | None = None):
     t = heap[m["i"] - 1]
     if t is None:
         raise MissingRef(("table", m["i"]))
+    if tap is not None and v not in ("transfer", "getname"):
+        t = ChainTap(t, tap)
     if v == "mutate":
         return t >> mutate(**{kv["n"]: b.build(kv["e"], top=True) for kv in m["kv"]})
     if v == "summarize":
@@ -439,6 +454,10 @@ def apply_move(m: dict, heap: list, colmap: dict, pool: dict | None = None):
         r = heap[m["j"] - 1]
         if r is None:
             raise MissingRef(("table", m["j"]))
+        if tap is not None:
+            t = t.table
+        if ALT_FORMS:       # the documented two-table form union(left, right, distinct=...)
+            return union(r, t, distinct=m["distinct"]) if m.get("swap") else union(t, r, distinct=m["distinct"])
         if m.get("swap"):
             return r >> union(t, distinct=m["distinct"])
         return t >> union(r, distinct=m["distinct"])
